@@ -35,6 +35,12 @@ type Up4Gen struct {
 	// AddFlows: modifications may create new flows (Create PDR/QER in a modification)
 	AddFlows bool
 	UEAlloc  bool
+	// Wide: boundary values everywhere (C16): precedences 0 and 65535 (and beyond), any 32-bit TEID, QFIs up to 63,
+	// port ranges touching 0 and 65535, prefix lengths 1..32
+	Wide bool
+	// ForceSessQer / OneFlow: every session has a session QER / exactly one flow (crowds that hold many meter cells)
+	ForceSessQer bool
+	OneFlow      bool
 }
 
 type uflow struct {
@@ -63,13 +69,18 @@ type usess struct {
 	teids      map[uint16]uint32
 }
 
-func NewUp4Gen(w *World, seed int64, peers, maxSess int) *Up4Gen {
-	g := &Up4Gen{W: w, R: rand.New(rand.NewSource(seed)), Peers: peers, MaxSess: maxSess, Stats: map[string]int{}, assoc: map[string]bool{}}
+func NewUp4Gen(w *World, seed int64, peers, maxSess int, wide bool) *Up4Gen {
+	g := &Up4Gen{W: w, R: rand.New(rand.NewSource(seed)), Peers: peers, MaxSess: maxSess, Stats: map[string]int{}, assoc: map[string]bool{}, Wide: wide}
 	g.ueCtr = 0x0AFA0000 + uint32(g.R.Intn(1<<8))<<8 // inside 10.250.0.0/16
 	g.teidCtr = uint32(g.R.Intn(1<<30)) | 1
 	g.cpCtr = g.R.Uint64() | 1
 
 	for i := 0; i < 3; i++ {
+		if wide {
+			g.gnbs = append(g.gnbs, g.R.Uint32()|1)
+			continue
+		}
+
 		g.gnbs = append(g.gnbs, 0xC0A86400+uint32(1+g.R.Intn(250)))
 	}
 
@@ -78,6 +89,9 @@ func NewUp4Gen(w *World, seed int64, peers, maxSess int) *Up4Gen {
 	}
 
 	g.QFIs = []uint8{1, 5, 9, uint8(1 + g.R.Intn(63)), uint8(1 + g.R.Intn(63))}
+	if wide {
+		g.QFIs = append(g.QFIs, 63, 62, 32)
+	}
 
 	return g
 }
@@ -95,6 +109,10 @@ func (g *Up4Gen) mkFlow() *pfcpx.Flow {
 
 		if g.R.Intn(3) > 0 {
 			ln := []int{8, 16, 24, 32}[g.R.Intn(4)]
+			if g.Wide {
+				ln = 1 + g.R.Intn(32)
+			}
+
 			ip := uint32(0x08000000+g.R.Intn(1<<24)) &^ (1<<(32-uint(ln)) - 1)
 			f.Src = pfcpx.FlowEP{Kind: "net", IP: ip, Len: ln, Ports: "none"}
 		}
@@ -102,9 +120,16 @@ func (g *Up4Gen) mkFlow() *pfcpx.Flow {
 		switch g.R.Intn(3) {
 		case 0:
 			f.Src.Ports, f.Src.Lo = "one", 1+g.R.Intn(65000)
+			if g.Wide && g.R.Intn(2) == 0 {
+				f.Src.Lo = []int{1, 65535, 65534, 32768}[g.R.Intn(4)]
+			}
 		case 1:
 			lo := 1 + g.R.Intn(60000)
 			f.Src.Ports, f.Src.Lo, f.Src.Hi = "range", lo, lo+1+g.R.Intn(5000)
+
+			if g.Wide && g.R.Intn(2) == 0 {
+				f.Src.Lo, f.Src.Hi = []int{0, 1, 1024, 65534}[g.R.Intn(4)], 65535
+			}
 		}
 
 		if f.ProtoN == 255 && f.Src.Kind == "any" && f.Src.Ports == "none" {
@@ -127,7 +152,34 @@ func (g *Up4Gen) mkFlow() *pfcpx.Flow {
 
 func (g *Up4Gen) peerName(i int) string { return fmt.Sprintf("p%d", i+1) }
 
+func (g *Up4Gen) precedence() uint32 {
+	if g.Wide {
+		switch g.R.Intn(8) {
+		case 0:
+			return 0
+		case 1:
+			return 65535
+		case 2:
+			return 65534
+		case 3:
+			return 1
+		case 4:
+			return []uint32{65536, 0x7FFFFFFF, 0xFFFFFFFF, 100000}[g.R.Intn(4)]
+		}
+	}
+
+	return uint32(g.R.Intn(65535))
+}
+
 func (g *Up4Gen) nextTeid() uint32 {
+	if g.Wide && g.R.Intn(2) == 0 {
+		for {
+			if t := g.R.Uint32() | uint32(g.R.Intn(2))<<31; t != 0 && t != 0xFFFFFFFF {
+				return t
+			}
+		}
+	}
+
 	g.teidCtr += uint32(1 + g.R.Intn(1000))
 	if g.teidCtr == 0 {
 		g.teidCtr = 1
@@ -163,7 +215,7 @@ func (g *Up4Gen) appQer(id uint32) pfcpx.QER {
 }
 
 func (g *Up4Gen) newFlow(s *usess, first bool) *uflow {
-	f := &uflow{ul: s.nextPDR, dl: s.nextPDR + 1, ulFar: s.nextFar, dlFar: s.nextFar + 1, flow: -1, prec: uint32(g.R.Intn(65535))}
+	f := &uflow{ul: s.nextPDR, dl: s.nextPDR + 1, ulFar: s.nextFar, dlFar: s.nextFar + 1, flow: -1, prec: g.precedence()}
 	s.nextPDR += 2
 	s.nextFar += 2
 
@@ -284,13 +336,16 @@ func (g *Up4Gen) Establish(peer string) bool {
 		s.chooseTeid = true
 	}
 
-	if g.R.Intn(2) == 0 {
+	if g.R.Intn(2) == 0 || g.ForceSessQer {
 		s.sessQer = 1
 		s.sq = pfcpx.QER{ID: 1, QFI: 0, ULMBR: uint64(2000000 + g.R.Intn(1000000)), DLMBR: uint64(2000000 + g.R.Intn(1000000)), NoGBR: true}
 	}
 
 	s.fd = g.dlFar(0, false)
 	nf := 1 + g.R.Intn(3)
+	if g.OneFlow {
+		nf = 1
+	}
 
 	for i := 0; i < nf; i++ {
 		if f := g.newFlow(s, i == 0); f != nil {
@@ -337,9 +392,36 @@ func (g *Up4Gen) Establish(peer string) bool {
 }
 
 // Modify sends one random modification of a live session.
-func (g *Up4Gen) Modify(s *usess) {
+func (g *Up4Gen) Modify(s *usess) { g.ModifyKind(s, g.R.Intn(10)) }
+
+// Reseed restarts the generator's random stream: requests generated after the same reseed have the same shape
+// (their addresses, TEIDs and SEIDs still differ).
+func (g *Up4Gen) Reseed(seed int64) { g.R = rand.New(rand.NewSource(seed)) }
+
+// Last returns the most recently established session (nil if none).
+func (g *Up4Gen) Last() *usess {
+	if len(g.sess) == 0 {
+		return nil
+	}
+
+	return g.sess[len(g.sess)-1]
+}
+
+// Live tells whether the session is (believed) live.
+func (s *usess) Live() bool { return s != nil && s.live }
+
+// Kinds of modification for ModifyKind.
+const (
+	ModFar    = 0 // all downlink FARs: buffer / drop / forward to a gNB
+	ModQer    = 4
+	ModPdr    = 6
+	ModRemove = 7
+	ModAdd    = 9
+)
+
+// ModifyKind sends a modification of the given kind (one of the Mod* constants; 0..9 as drawn by Modify).
+func (g *Up4Gen) ModifyKind(s *usess, kind int) {
 	r := &SessReq{Hdr: s.up}
-	kind := g.R.Intn(10)
 	g.Stats["mod"]++
 
 	switch {
@@ -381,7 +463,7 @@ func (g *Up4Gen) Modify(s *usess) {
 	case kind < 7: // PDR update: precedence
 		f := s.flows[g.R.Intn(len(s.flows))]
 		old := f.prec
-		f.prec = uint32(g.R.Intn(65535))
+		f.prec = g.precedence()
 		ul, dl := g.pdrs(s, f, true)
 		r.UPDR = []pfcpx.PDR{ul, dl}
 
